@@ -120,7 +120,7 @@ def work_orders(task):
 
 def run(tier, t0):
     acc = common.Acc()
-    tasks = [('lane', (lane, bg)) for lane in range(4) for bg in (0, M64, 0x5555555555555555, 0x0123456789abcdef)]
+    tasks = [('lane', (lane, bg)) for lane in range(4) for bg in ((0, M64, 0x5555555555555555, 0x0123456789abcdef) if tier == 'quick' else (0, M64, 0x5555555555555555, 0xaaaaaaaaaaaaaaaa, 0x0123456789abcdef, 0xfedcba9876543210, 0x8000000000000001, 0x00ff00ff00ff00ff))]
     tasks.append(('special', None))
     R = 6 if tier == 'quick' else 8
     tasks += [('ids', r) for r in range(-1, R + 1)]
